@@ -481,11 +481,12 @@ func (a *asset) generateTimelineEntries(repID string, wt wrapTimes, atoMS int) s
 
 	// The offset is added before the conversion to media time, so that a segment is listed
 	// from the very millisecond at which the segment server starts to deliver it.
-	relStartTime := uint64((wt.startRelMS + atoMS) * rep.MediaTimescale / 1000)
-	if loopDur := uint64(rep.duration()); relStartTime >= loopDur { // the offset reaches into a later loop
-		wt.startWraps += int(relStartTime / loopDur)
-		relStartTime %= loopDur
+	relStart := (wt.startRelMS + atoMS) * rep.MediaTimescale / 1000
+	if loopDur := rep.duration(); relStart >= loopDur { // the offset reaches into a later loop
+		wt.startWraps += relStart / loopDur
+		relStart %= loopDur
 	}
+	relStartTime := uint64(relStart)
 	relStartIdx := 0
 	if relStartTime < segs[0].EndTime {
 		wt.startWraps--
@@ -502,11 +503,12 @@ func (a *asset) generateTimelineEntries(repID string, wt wrapTimes, atoMS int) s
 		wt.startWraps = 0
 	}
 
-	relNowTime := uint64((wt.nowRelMS + atoMS) * rep.MediaTimescale / 1000)
-	if loopDur := uint64(rep.duration()); relNowTime >= loopDur { // the offset reaches into a later loop
-		wt.nowWraps += int(relNowTime / loopDur)
-		relNowTime %= loopDur
+	relNow := (wt.nowRelMS + atoMS) * rep.MediaTimescale / 1000
+	if loopDur := rep.duration(); relNow >= loopDur { // the offset reaches into a later loop
+		wt.nowWraps += relNow / loopDur
+		relNow %= loopDur
 	}
+	relNowTime := uint64(relNow)
 	relNowIdx := 0
 	if relNowTime < segs[0].EndTime {
 		wt.nowWraps--
